@@ -105,6 +105,38 @@ class C14(KSpec):
 
 
 class C19(KSpec):
+    warm_runs = 40
+
+    def __init__(self, prop, world_name):
+        super().__init__(prop, world_name)
+        import importlib
+        self.world_r = importlib.import_module("dsim.worlds.R")
+
+    def gen(self, rng, tier):
+        if rng.chance(0.12):  # self_collision.detect / detect_any are narrow-phase entry points too
+            return self.world_r.gen(rng, tier, self.prop)
+        return self.world.gen(rng, tier, self.prop)
+
+    def _w(self, plan):
+        return self.world_r if plan["world"] == "R" else self.world
+
+    def signature(self, plan):
+        return plan["world"] + self._w(plan).signature(plan)
+
+    def stats(self, plan, jrs):
+        return self._w(plan).stats(plan, jrs[0])
+
+    def evaluate(self, lane, plan, **kw):
+        jr = lane.run(plan, engine=self.engines[0], **kw)
+        vs = self._w(plan).judge(plan, jr, self.prop)
+        ev = self.end_violations(plan, jr, self.engines[0])
+        if plan["world"] == "R":
+            ev = [dict(v, oracle=v["oracle"].replace("K.", "R.")) for v in ev]
+        vs += ev
+        vs.sort(key=lambda v: (v["at"] if v["at"] is not None else 10 ** 9))
+        return vs, [jr]
+
+
     rule = ("one run = one seeded history of narrow-phase calls (all GJK flavours, EPA, MPR) on 1-4 collider slots "
             "incl. identical object twice, nested, touching, needle/flat, zero-volume hulls, lattice placements, with "
             "pose changes and cache-warming bursts in between; the virtual clock counts support evaluations per "
